@@ -45,7 +45,7 @@ DROPS = ('constexpr dropped; templates instantiated textually (IntT / T as macro
          'pointers, Vector<T>(..) temporaries become Vector_make(..); std::pair -> struct {first, second}; the function-local statics of '
          'random_data are hoisted (fd: part of the readx stub; buffer: file-scope model); std::string members -> model calls; '
          'not taken (not part of the property or not decidable here): norm() (sqrt), str(), Matrix4 element-wise operators, ==, !=, '
-         'operator*(Matrix4), operator*=; invert()/inverse(): entry arithmetic (/=, += .. * ..) rewritten to uninterpreted function symbols by rule '
+         'the element-wise compound operators; operator*(Matrix4), operator*=(Matrix4), invert()/inverse(): entry arithmetic (/=, += .. * ..) rewritten to uninterpreted function symbols by rule '
          '(anything else arithmetic in the body stops the extraction), Matrix4<T>() -> the identity model, T = double')
 NOT_DECIDED = [
     'gcd<IntT>: "divides both arguments / divisible by every common divisor" is proved for the 8-bit instantiations only (int8_t, uint8_t; '
@@ -54,9 +54,13 @@ NOT_DECIDED = [
     'and result <= max(a,b) are proved outright (groups *.partial); in addition the divisibility clauses are proved at 16/32/64 bits MODULO the assumed Euclid step lemma '
     'and D(0) with "d divides" as an abstract predicate carried by ghost booleans (groups *.divisibility[abstract predicate ...]); '
     'reduce_fraction is proved for the 8-bit instantiations only',
-    '(AB)v = A(Bv): Matrix4::operator*(Matrix4) accumulates in a double for every T; its contract needs '
-    '(double)acc + (double)t == (double)(acc + t), which no back end decided within 300 s (cvc5 additionally hits an SMT2 generation error) -- '
-    'the matrix product, and with it associativity with M*v, is not decided. M*v itself is proved (componentwise definition, uint64_t)',
+    '(AB)v = A(Bv): Matrix4::operator*(Matrix4) accumulates in a double for every T; a contract over the integer instantiations needs '
+    '(double)acc + (double)t == (double)(acc + t), which no back end decided within 300 s (cvc5 additionally hits an SMT2 generation error). '
+    'Decided instead (groups Matrix4<double>.operator*(Matrix4) / operator*=(Matrix4)): every entry of A * B is sum_z A.m[z][y] * B.m[x][z] (accumulated from 0, z ascending) '
+    'for every interpretation of + and * (uninterpreted functions, z3, constant loops unwound completely), also for A * A, and A *= B stores and returns the product of the '
+    'operand values at the call, also for A *= A. M*v is proved as the componentwise definition (uint64_t). That these two definitions give (AB)v = A(Bv) in exact arithmetic '
+    'is the textbook associativity of the matrix product (distributivity + associativity of the ring), not machine-checked; the accumulation order is part of the reference, '
+    'so a re-associated accumulation is reported as a difference (without a failing input when the arithmetic is exact)',
     'M * inverse(M) = I for diagonally dominant M as a numerical statement (rounding-error bound of floating-point Gauss-Jordan elimination): outside what the bit-precise '
     'back ends decide. Decided instead (groups Matrix4<double>.invert / .inverse): invert() equals the reference Gauss-Jordan elimination on [M | I] entry by entry and raises '
     '"not invertible" exactly on a zero pivot, for every interpretation of + * / on the entries (uninterpreted functions, z3), all loops (constant bound 4) unwound completely; '
@@ -482,6 +486,23 @@ def invert_unit(ctx, src):
                rules=[Rule('Matrix4<T> res = *this;', 'Matrix4 res = *self;', count=1),
                       Rule('res.invert();', 'Matrix4_invert(&res); if (verif_exc) return res;', count=1),
                       Rule(r'\*this\b', '*self', count=None, regex=True)])
+    # the matrix product and the in-place product, same lowering (T = double).  The rules are shape-directed: any accumulation
+    # `v += <entry> * <entry>;` becomes the uninterpreted operations, whatever the operands are called
+    OPND = r'(?:\w+(?:->|\.))?\w+(?:\[\w+\])+'
+
+    def no_arith_p(body, where=''):
+        return no_arith(re.sub(r'\*self\b', 'SELF', body), where) and body
+    PROD_RULES = [Rule(r'\bMatrix4<T> res;', 'Matrix4 res; Matrix4_identity(&res);', count=None, regex=True),
+                  Rule(r'\bMatrix4<T> (\w+) = \*this \* other;', r'Matrix4 \1 = Matrix4_mulm(self, other);', count=None, regex=True),
+                  Rule(r'\bMatrix4<T>\b', 'Matrix4', count=None, regex=True), Rule(r'\bT\b', 'double', count=None, regex=True),
+                  Rule(r'\*this\b', '*self', count=None, regex=True), Rule(r'\bthis->', 'self->', count=None, regex=True),
+                  Rule(r'\bother\.', 'other->', count=None, regex=True),
+                  Rule(r'(\w+) \+= (%s) \* (%s);' % (OPND, OPND), r'\1 = UF_ADD(\1, UF_MUL(\2, \3));', count=None, regex=True),
+                  Fn20(no_arith_p)]
+    u.function(src, VINL, r'Matrix4<T> Matrix4<T>::operator\*\(const Matrix4<T>& other\) const',
+               new_header='Matrix4 Matrix4_mulm(const Matrix4* self, const Matrix4* other)', ret_zero='res', must_loops=False, rules=PROD_RULES)
+    u.function(src, VINL, r'Matrix4<T> Matrix4<T>::operator\*=\(const Matrix4<T>& other\)',
+               new_header='Matrix4 Matrix4_imulm(Matrix4* self, const Matrix4* other)', ret_zero='*self', must_loops=False, rules=PROD_RULES)
     u.write()
     return u
 
@@ -507,6 +528,13 @@ def invert_groups(ctx):
         Group(name='Vector.Matrix4<double>.inverse', harness=H, entry='h_inverse', function='Matrix4<double>::inverse', enforce='Matrix4_inverse',
               replace=['Matrix4_invert'], kind='loop-free', min_post=2, cbmc_flags=UNW,
               clause_note='contracts/C20_invert.h: inverse() = invert() of a copy, the operand is not modified (assigns)', replay=rp('inverse')),
+        Group(name='Vector.Matrix4<double>.operator*(Matrix4)', harness=H, entry='h_mulm', function='Matrix4<double>::operator*(const Matrix4&)', enforce='Matrix4_mulm',
+              kind='unwound-constant-loops', bound=bound, cbmc_flags=UNW, min_post=1, timeout=600, stage1=120, engines=['z3'], first='z3',
+              clause_note='contracts/C20_invert.h: entry (x, y) == sum_z A.m[z][y] * B.m[x][z] (accumulated from 0, z ascending) at the ghost entry, for every interpretation '
+                          'of + and * (uninterpreted functions), also for A * A', replay=rp('mulm')),
+        Group(name='Vector.Matrix4<double>.operator*=(Matrix4)', harness=H, entry='h_imulm', function='Matrix4<double>::operator*=(const Matrix4&)', enforce='Matrix4_imulm',
+              replace=['Matrix4_mulm'], kind='unwound-constant-loops', bound=bound, cbmc_flags=UNW, min_post=1, timeout=600, stage1=120, engines=['z3'], first='z3',
+              clause_note='contracts/C20_invert.h: A *= B leaves in A (and returns) the product of the operand values at the call, also when B is A itself', replay=rp('imulm')),
     ]
 
 
@@ -561,7 +589,7 @@ MANIFEST = dict(
           'extracted from /repo/src on every run; loops (Euclid, 4x4 matrix loops, refill loop) by loop contracts for any iteration count. '
           'gcd divisibility and reduce_fraction (same ratio, coprime) are proved for the 8-bit instantiations over all values.'),
     note=('Not decided: gcd divisibility / reduce_fraction for 16/32/64-bit types (non-linear induction step; only termination, UB-freedom, gcd(a,0)=a, '
-          'zero-iff-both-zero, <= max proved there); the matrix product (double accumulator), hence (AB)v = A(Bv); M*inverse(M) = I; norm(); float/double '
+          'zero-iff-both-zero, <= max proved there); (AB)v = A(Bv) as an algebraic identity (decided: A*B and A*=B are the textbook product entry by entry over uninterpreted arithmetic, M*v componentwise); M*inverse(M) = I; norm(); float/double '
           'instantiations. Trusted: cbmc/goto-instrument, the answering SAT/SMT solver, the extractor, the spec macros in contracts/C20_*.h, the stubs for '
           'the random source / std::string / memcpy (content abstracted) in contracts/C20_random.h, cbmc\'s __builtin_clz(ll) model. Preconditions exclude '
           'inputs on which the native C++ operator is undefined; operands of binary vector operators are distinct objects; at(dim) only for dim < N.'),
